@@ -143,7 +143,9 @@ def collect(ctx, sub="c01", extra=()):
             progs.pop("corpus:" + w[len("corpus/"):], None)
     return progs, feats
 
-GENERATED = ("gen:", "eff:", "wrap:", "nest:", "prog:", "names:")
+# streams whose programs carry the output they print BY CONSTRUCTION (namecat.rs, patpos.rs)
+BY_CONSTRUCTION = ("names:", "patpos:")
+GENERATED = ("gen:", "eff:", "wrap:", "nest:", "prog:", "names:", "patpos:")
 
 def evaluate(ctx, progs):
     # generated programs are small: they run with a small fuel budget (GV_GEN_FUEL), so that a stage
@@ -266,7 +268,15 @@ def run(ctx):
     pending = []
     samples, distinct = [], set()
     derive_checked = 0
+    n_patpos = 0
     for pid, d in progs.items():
+        n_patpos += pid.startswith("patpos:")
+        if not d["stages"] and pid.startswith("patpos:") and ("reject" in d or "panic" in d):
+            # harness/src/patpos.rs: well-typed by construction when a constructor name in pattern position tests the
+            # constructor and a use in the arm body means the innermost local binder of that spelling
+            ctx.report({"oracle": "accept-by-construction", "stream": "patpos"},
+                       "a program whose patterns name constructors of the file while a local binder of the same spelling is in scope is rejected",
+                       {"id": pid, "src": d.get("src"), "diagnostics": str(d.get("reject") or d.get("panic"))[:600]})
         if not d["stages"]:
             continue
         n_prog += 1
@@ -396,8 +406,8 @@ def run(ctx):
                 n_exp_ok += 1
             else:
                 # (the name catalogue carries the output its programs print BY CONSTRUCTION: one signature for the stream)
-                ctx.report({"oracle": "output-by-construction", "stream": "names"} if pid.startswith("names:") else {"oracle": "recorded-output", "program": pid},
-                           "Go.Sem of the emitted Go differs from the output the program prints by construction" if pid.startswith("names:") else
+                ctx.report({"oracle": "output-by-construction", "stream": pid.split(":")[0]} if pid.startswith(BY_CONSTRUCTION) else {"oracle": "recorded-output", "program": pid},
+                           "Go.Sem of the emitted Go differs from the output the program prints by construction" if pid.startswith(BY_CONSTRUCTION) else
                            "Go.Sem of the emitted Go differs from the output recorded from real Go",
                            dict(payload, expected=d["expect"][:400]))
             # the same validation for SrcSem: the source meaning must be what real Go printed
@@ -406,8 +416,8 @@ def run(ctx):
                 if expected_matches(pid, d["expect"], o["src"]):
                     n_exp_src_ok += 1
                 else:
-                    ctx.report({"oracle": "output-by-construction-src", "stream": "names"} if pid.startswith("names:") else {"oracle": "recorded-output-src", "program": pid},
-                               "SrcSem of the source program differs from the output the program prints by construction" if pid.startswith("names:") else
+                    ctx.report({"oracle": "output-by-construction-src", "stream": pid.split(":")[0]} if pid.startswith(BY_CONSTRUCTION) else {"oracle": "recorded-output-src", "program": pid},
+                               "SrcSem of the source program differs from the output the program prints by construction" if pid.startswith(BY_CONSTRUCTION) else
                                "SrcSem of the source program differs from the output recorded from real Go",
                                dict(payload, expected=d["expect"][:400]))
         if len(vlib.unesc(ref[1])) > 0:
@@ -450,6 +460,7 @@ def run(ctx):
     ctx.violations.sort(key=lambda v: len(v[2].get("src") or "x" * 10**6))
     cov = {
         "programs": n_prog, "disagreements_checked": len(ctx.violations),
+        "patpos_programs(constructor name in pattern position under a same-spelled local, output by construction)": n_patpos,
         "samples": samples or [{"id": "corpus only"}],
         "evaluations": n_prog * len(CHAIN), "distinct_nontrivial": len(distinct),
         "rule": "one program = 82-program corpus (74 single-file pipeline programs here) + type-directed generated programs over the feature lattice + the name catalogue (a local binder of every kind spelled like a package-level name, in every use position, with fresh-named twins); every accepted program's real "
